@@ -314,3 +314,14 @@ fn value_completion(option: &Arg) -> String {
         .to_string()
     }
 }
+
+#[cfg(clap_verif)]
+pub(crate) fn verif_escape(kind: &str, s: &str) -> Option<String> {
+    match kind {
+        "fish_string" => Some(escape_string(s, false)),
+        "fish_string_comma" => Some(escape_string(s, true)),
+        "fish_help" => Some(escape_help(&builder::StyledStr::from(s.to_owned()))),
+        "fish_name" => Some(escape_name(s)),
+        _ => None,
+    }
+}
